@@ -116,7 +116,7 @@ def make(cls, t):
         except Exception:
             pass
     a, b = T.Field("a", table=t), T.Field("b", table=t)
-    for args in ((a,), (), (a, b), (a, 1), (a, b, 1)):
+    for args in ((), (a,), (a, b), (a, 1), (a, b, 1)):
         try:
             x = cls(*args)
         except Exception:
